@@ -8,7 +8,8 @@
 // BOUND: one generated data file (330 owner names repeated over 4 rounds so that every batch meets several hundred
 // keys stored by earlier batches, a name with 40 values, located and global records, a subnet map, TXT/MX lines);
 // S = builder x {1, 4} workers; batches with (size, parallel) in {(default,1), (1,1)*, (7,3), (97,2), (331,4),
-// (700,1)} and both key layouts for two of them. (*: size 1 on a 60-line prefix of the file.)
+// (700,1)} and both key layouts for two of them (*: size 1 on a 60-line prefix of the file); the bulk loader's
+// pipeline with small buckets (minimum size / maximum number) in {(50,8), (7,64), (400,3)}.
 // Labelled bounded; never counted as proved.
 package rdb
 
@@ -149,6 +150,68 @@ func TestVerifBoundedCompileSettings(t *testing.T) {
 		if bad > 0 {
 			fails += bad
 			fmt.Printf("BOUNDED-FAIL setting=%s: %d keys differ\n", s.name, bad)
+		}
+	}
+	// the bulk loader with SEVERAL buckets (Execute itself needs > 30000 records for a second bucket): the same
+	// pipeline -- sort, createBuckets, saveBuckets, ingest -- with small buckets
+	for _, bs := range [][2]int{{50, 8}, {7, 64}, {400, 3}} {
+		codec := initCodec(7)
+		recs, err := dnsdata.Parse(bytes.NewReader(full), codec, 1)
+		if err != nil {
+			t.Fatal(err)
+		}
+		want := map[string][]string{}
+		dir, err := os.MkdirTemp("", "verif_c07b")
+		if err != nil {
+			t.Fatal(err)
+		}
+		b, err := NewBuilder(dir, false)
+		if err != nil {
+			t.Fatal(err)
+		}
+		for _, r := range recs {
+			want[string(r.Key)] = append(want[string(r.Key)], string(r.Value))
+			b.ScheduleAdd(r.Key, r.Value)
+		}
+		for k := range want {
+			sort.Strings(want[k])
+		}
+		b.sortDataset()
+		b.createBuckets(bs[0], bs[1])
+		nb := len(b.buckets)
+		files, err := b.saveBuckets()
+		if err == nil {
+			err = b.ingestFiles(files)
+		}
+		b.FreeBuilder()
+		if err != nil {
+			t.Fatalf("builder with buckets %v: %v", bs, err)
+		}
+		got := vbC07Dump(t, dir)
+		os.RemoveAll(dir)
+		cases += len(want)
+		bad := 0
+		for k, w := range want {
+			g := got[k]
+			same := len(g) == len(w)
+			for i := 0; same && i < len(w); i++ {
+				same = g[i] == w[i]
+			}
+			if !same {
+				bad++
+				if bad <= 3 {
+					fmt.Printf("BOUNDED-FAIL builder minBucket=%d maxBuckets=%d (%d buckets) key=%q: the codec emits %d values, the database holds %d\n", bs[0], bs[1], nb, k, len(w), len(g))
+				}
+			}
+		}
+		for k := range got {
+			if _, ok := want[k]; !ok {
+				bad++
+			}
+		}
+		if bad > 0 {
+			fails += bad
+			fmt.Printf("BOUNDED-FAIL builder minBucket=%d maxBuckets=%d (%d buckets): %d keys differ\n", bs[0], bs[1], nb, bad)
 		}
 	}
 	fmt.Printf("BOUNDED-CASES %d\n", cases)
